@@ -106,6 +106,8 @@ static void check_list(const opus_extension_data *ex,int n,int nbf,int trunc_mod
         int len=dry+K[k]; unsigned char *p=c16_blk(&OUT,len);
         w=opus_packet_extensions_generate(p,len,ex,n,nbf,1); l_calls++; l_pad++;
         if (w!=len){ FAIL("gen:pad_does_not_fill","pad=1 len=%d returned %d; nb_frames=%d list {%s}",len,(int)w,nbf,c16_list_str(ex,n)); goto done; }
+        { opus_int32 dp=opus_packet_extensions_generate(NULL,len,ex,n,nbf,1); l_calls++;       /* the dry run of the SAME call (pad=1, same len) reports the size that call writes */
+          if (dp!=w){ FAIL("gen:dry_run_size_differs:pad","pad=1 len=%d: dry run returned %d, the write returned %d; nb_frames=%d list {%s}",len,(int)dp,(int)w,nbf,c16_list_str(ex,n)); goto done; } }
         cap=n; pr=opus_packet_extensions_parse(p,len,out2,&cap,nbf); l_calls++;
         if (pr<0||(d=c16_same_per_frame(ex,n,out2,cap,nbf))>=0){ FAIL("gen:pad_roundtrip_differs","pad=1 len=%d parse ret=%d n=%d; nb_frames=%d list {%s} bytes=%s",len,pr,(int)cap,nbf,c16_list_str(ex,n),mc_hex(p,len<200?len:200)); goto done; }
         for(i=0;i<cap;i++) if(c16_ext_bad(&out2[i],p,len,nbf)){ FAIL("gen:pad_roundtrip_differs","pad=1 len=%d entry %d outside",len,i); goto done; }
